@@ -158,6 +158,11 @@ theorem stepT_acct (s s' : St) (p : Pid) (h : Inv s) (ha : Acct s) (hs : stepT s
     split at hs
     · simp at hs; subst hs; exact acct_same s _ rfl rfl rfl rfl rfl ha
     · simp at hs
+  case tp4 ok =>
+    simp only [releaseT, hcfg, code_unlockFence, if_true] at hs
+    split at hs
+    · simp at hs; subst hs; exact acct_same s _ rfl rfl rfl rfl rfl ha
+    · simp at hs
   all_goals (first
     | (simp at hs; subst hs; exact acct_same s _ rfl rfl rfl rfl rfl ha)
     | (split at hs <;> simp at hs <;> subst hs <;> first | exact ha | exact acct_same s _ rfl rfl rfl rfl rfl ha)
@@ -241,12 +246,8 @@ theorem quiescent_mem (s : St) (h : Inv s) (ho : s.opc = .idle) (ht : ∀ p, s.t
     exact h.mwin k hk (by have := h.len; omega)
   · have := h.len; omega
 
-theorem owner_not_resetting (s : St) (h : Inv s) (p : Pid) (hl : s.lock = .thief p) : resetting s.opc = false := by
-  have h0 : ownerLocked s.opc = false := by
-    cases ho : ownerLocked s.opc with
-    | false => rfl
-    | true => have := h.lockO.2 ho; rw [hl] at this; cases this
-  cases hpc : s.opc <;> simp [hpc, ownerLocked, resetting] at h0 ⊢
+theorem owner_not_resetting (s : St) (h : Inv s) (p : Pid) (hl : s.lock = .thief p) : resetting s.opc = false :=
+  thief_not_resetting s h p hl
 
 /-- the fall-back branches of the three linearization points (taken when the ghost deque is empty)
     are unreachable: whenever the concrete test succeeds the abstract deque is non-empty -/
